@@ -78,8 +78,8 @@ func genCases(seed int64, tier string) []core.Case {
 	nProbe := 1
 	nStrace := 20
 	if tier == "thorough" {
-		nDet, perDet, repeats, envs = 160, 32, 7, 4
-		nConc, perConc = 64, 8
+		nDet, perDet, repeats, envs = 160, 28, 7, 4
+		nConc, perConc = 64, 6
 		nProbe = 3
 		nStrace = 200
 	}
